@@ -93,9 +93,9 @@ pub fn run() -> i32 {
     let mut rep = Report::new(
         "lexical",
         if deep {
-            "DEEP: every string of length <= 2 over 46 characters + length 3 over 16 of them, in 12 contexts (compile + render); token soup of <= 3 tokens over 50 tokens in 6 contexts; 22 cycle programs and 6 layered-diamond programs (12 and 30 layers: exponentially many paths) in child processes with a 3 s limit; only a panic/abort/hang counts"
+            "DEEP: every string of length <= 2 over 46 characters + length 3 over 16 of them, in 12 contexts (compile + render); token soup of <= 3 tokens over 50 tokens in 6 contexts; 22 cycle programs and 12 layered-diamond programs (12 and 30 layers, bottom-up and top-down: exponentially many paths) in child processes with a 3 s limit; only a panic/abort/hang counts"
         } else {
-            "every string of length <= 2 over 46 characters (all Unicode white space, the lexers' punctuation, multi-byte letters) in 12 contexts (compile + render); token soup of <= 2 tokens over 50 tokens in 6 contexts; 22 cycle programs and 6 layered-diamond programs (12 and 30 layers: exponentially many paths) in child processes with a 3 s limit; only a panic/abort/hang counts"
+            "every string of length <= 2 over 46 characters (all Unicode white space, the lexers' punctuation, multi-byte letters) in 12 contexts (compile + render); token soup of <= 2 tokens over 50 tokens in 6 contexts; 22 cycle programs and 12 layered-diamond programs (12 and 30 layers, bottom-up and top-down: exponentially many paths) in child processes with a 3 s limit; only a panic/abort/hang counts"
         },
     );
     let mut fillers: Vec<String> = vec![String::new()];
@@ -152,6 +152,12 @@ pub fn run() -> i32 {
             }
         }
         al.push_str(&format!("struct User {{ u: L{}a }}\n", layers - 1));
+        // the same definitions written TOP LAYER FIRST (a memo that is only filled for the definition a search starts from helps
+        // bottom-up files and not these)
+        let reversed = |t: &str| -> String { let mut ls: Vec<&str> = t.lines().collect(); let head = ls.remove(0); ls.reverse(); format!("{head}\n{}\n", ls.join("\n")) };
+        scaling.push((format!("interface-layered-diamonds-{layers}-top-down"), reversed(&i)));
+        scaling.push((format!("struct-layered-diamonds-{layers}-top-down"), reversed(&st)));
+        scaling.push((format!("alias-layered-diamonds-{layers}-top-down"), reversed(&al)));
         scaling.push((format!("interface-layered-diamonds-{layers}"), i));
         scaling.push((format!("struct-layered-diamonds-{layers}"), st));
         scaling.push((format!("alias-layered-diamonds-{layers}"), al));
